@@ -22,3 +22,5 @@ hw!(HW127, 2, [0xffff_ffff_ffff_ffff, 0x7fff_ffff_ffff_ffff]);
 hw!(HW7x2, 2, [7, 0]);
 hw!(HW192m237, 3, [0xffff_ffff_ffff_ff13, 0xffff_ffff_ffff_ffff, 0xffff_ffff_ffff_ffff]);
 hw!(HW190m11, 3, [0xffff_ffff_ffff_fff5, 0xffff_ffff_ffff_ffff, 0x3fff_ffff_ffff_ffff]);
+hw!(HW3x126, 2, [3755, 0xc000_0000_0000_0000]); // 3*2^126 + 3755: no spare bit, limb 0 below 2^63
+hw!(HW127p8799, 2, [8799, 0x8000_0000_0000_0000]); // 2^127 + 8799: no spare bit, far from 2^128
